@@ -1,10 +1,48 @@
 import XlVerif.Base
+import XlVerif.Drv.C01
+import XlVerif.Drv.C02
+import XlVerif.Drv.C03
+import XlVerif.Drv.C04
+import XlVerif.Drv.C05
+import XlVerif.Drv.C06
+import XlVerif.Drv.C07
+import XlVerif.Drv.C08
+import XlVerif.Drv.C09
+import XlVerif.Drv.C10
+import XlVerif.Drv.C11
+import XlVerif.Drv.C12
+import XlVerif.Drv.C13
+import XlVerif.Drv.C14
+import XlVerif.Drv.C15
+import XlVerif.Drv.C16
 import XlVerif.Drv.C17
+import XlVerif.Drv.C18
+import XlVerif.Drv.C19
+import XlVerif.Drv.C20
 namespace XlVerif.Drv
 /-- Dispatch one request line (`<property id>\t<fields…>`) to the property's driver. -/
 def handle (line : String) : String :=
   match line.splitOn "\t" with
   | "PING" :: _ => "PONG"
+  | "C01" :: rest => C01.handle rest
+  | "C02" :: rest => C02.handle rest
+  | "C03" :: rest => C03.handle rest
+  | "C04" :: rest => C04.handle rest
+  | "C05" :: rest => C05.handle rest
+  | "C06" :: rest => C06.handle rest
+  | "C07" :: rest => C07.handle rest
+  | "C08" :: rest => C08.handle rest
+  | "C09" :: rest => C09.handle rest
+  | "C10" :: rest => C10.handle rest
+  | "C11" :: rest => C11.handle rest
+  | "C12" :: rest => C12.handle rest
+  | "C13" :: rest => C13.handle rest
+  | "C14" :: rest => C14.handle rest
+  | "C15" :: rest => C15.handle rest
+  | "C16" :: rest => C16.handle rest
   | "C17" :: rest => C17.handle rest
+  | "C18" :: rest => C18.handle rest
+  | "C19" :: rest => C19.handle rest
+  | "C20" :: rest => C20.handle rest
   | _ => "error=unknown-request"
 end XlVerif.Drv
